@@ -7,18 +7,6 @@ Proof. unfold sadd. apply N.le_min_l. Qed.
 Lemma smul_le a b : (smul a b <= a * b)%N.
 Proof. unfold smul. apply N.le_min_l. Qed.
 
-Section L.
-Variable input : list N.
-Variable ci multi hb : bool.
-Variable K : nat.
-Let n := length input.
-Let R := Rop input ci multi.
-Let simp := simple input ci multi hb K.
-
-(* dist p q = q - p as an N, for p <= q *)
-Definition covers (o : op) : Prop :=
-  forall p q, In q (R o p) -> p <= q /\ (min_length o <= N.of_nat (q - p))%N.
-
 Lemma int_stepR_in len limit : forall fuel cur q, In q (int_stepR len limit fuel cur) -> limit <= q <= cur.
 Proof.
   induction fuel as [|f IH]; intros cur q H; cbn [int_stepR] in H; [inversion H|].
@@ -94,6 +82,19 @@ Proof.
     + apply N.ltb_ge in L. destruct (IH a) as [H1 H2]. split; [exact H1|].
       intros x [<-|Hx]; [eapply N.le_trans; [exact H1|lia]|apply H2; auto].
 Qed.
+
+
+Section L.
+Variable input : list N.
+Variable ci multi hb : bool.
+Variable K : nat.
+Let n := length input.
+Let R := Rop input ci multi.
+Let simp := simple input ci multi hb K.
+
+(* dist p q = q - p as an N, for p <= q *)
+Definition covers (o : op) : Prop :=
+  forall p q, In q (R o p) -> p <= q /\ (min_length o <= N.of_nat (q - p))%N.
 
 Theorem min_length_sound : forall o, simp o -> covers o.
 Proof.
